@@ -141,6 +141,29 @@ def run_case(case):
                 c.close(z, z_ref, "after_subspace_update", f"residual offset after {k} iterations once U/V were replaced on the same machine", tags, rtol=1e-7, scale=sc2, kappa=1e4)
                 if case["kind"] == "jfa":
                     c.close(np.asarray(out[0], float), y_ref, "after_subspace_update", f"speaker factors after {k} iterations once U/V were replaced", tags, rtol=1e-7, scale=sc2, kappa=1e4)
+    # history: the machine is (re)trained after it has enrolled clients; enrolment must follow the trained subspaces
+    if not c.viol:
+        tr_stats = _stats(ubm, 2, s, o) + _stats(ubm, 5, s, o)
+        tr_y = np.array([0, 1, 0, 1, 0, 1])[: len(tr_stats)]
+        m.em_iterations = 1
+        m.fit(copy.deepcopy(tr_stats), tr_y)
+        c.transitions += 1
+        V3 = np.asarray(m.V, float) if case["kind"] == "jfa" else None
+        J3 = ofa.Joint(ubm.means, ubm.variances, np.asarray(m.U, float), V3, np.asarray(m.D, float), [(np.asarray(st.n, float), np.asarray(st.sum_px, float)) for st in sts])
+        if np.all(np.isfinite(J3.P)) and np.linalg.cond(J3.P) < 1e10:
+            th = np.zeros(J3.dim)
+            sc3 = float(np.abs(J3.mode()).max()) + 1.0
+            for k in (1, 2, 3):
+                th = J3.sweep(th)
+                m.enroll_iterations = k
+                out = m.enroll(copy.deepcopy(sts))
+                c.transitions += 1
+                y_ref, z_ref = J3.split(th)
+                z = np.asarray(out[1] if case["kind"] == "jfa" else out, float)
+                z = z[0] if z.ndim == 2 else z
+                c.close(z, z_ref, "after_training", f"residual offset after {k} iterations once the machine was trained (fit) after earlier enrolments", tags, rtol=1e-6, scale=sc3, kappa=1e5)
+                if case["kind"] == "jfa":
+                    c.close(np.asarray(out[0], float), y_ref, "after_training", f"speaker factors after {k} iterations once the machine was trained after earlier enrolments", tags, rtol=1e-6, scale=sc3, kappa=1e5)
     c.traces = c.transitions
     sig = "%s|%d|%d|%d" % (case["kind"], case["ubm"], case["sub"], case["sl"])
     return c.result(nontrivial=moved, sig=sig)
